@@ -175,7 +175,7 @@ def run(ctx):
             ctx.formula('AGREE', 'trimming is applied iff its flag is set', sa, ea.cond(), eb.cond(), node=ea.node,
                         construct=ea.text()[:80] + ' [guard]')
     T.SYMKIND.clear()
-    rets = [e for e in I.events if e.kind == 'return' and e.func.short == sa.short]
+    rets = [e for e in I.events if e.kind == 'return' and e.owner == sa.short]
     ctx.require(rets, 'split_array no longer returns')
     for e in rets:
         va = e.data['value'].single_atom()
